@@ -226,6 +226,9 @@ func (eval Evaluator) Add(op0 *rlwe.Ciphertext, op1 rlwe.Operand, opOut *rlwe.Ci
 			}
 		}
 
+		// The constant was scaled by op0.Scale: the result has the scale of op0
+		opOut.Scale = op0.Scale
+
 	case uint64:
 		return eval.Add(op0, new(big.Int).SetUint64(op1), opOut)
 	case int64:
@@ -502,6 +505,9 @@ func (eval Evaluator) Mul(op0 *rlwe.Ciphertext, op1 rlwe.Operand, opOut *rlwe.Ci
 		for i := 0; i < op0.Degree()+1; i++ {
 			ringQ.MulScalarBigint(op0.Value[i], op1, opOut.Value[i])
 		}
+
+		// Multiplication by an integer constant does not change the scale
+		opOut.Scale = op0.Scale
 
 	case uint64:
 		return eval.Mul(op0, new(big.Int).SetUint64(op1), opOut)
